@@ -425,3 +425,8 @@ M('C15', 'merge-keeps-upper', 'experimental/polygonize.py', "                reg
 M('C15', 'isclose-int-tolerance', 'experimental/polygonize.py', "        return lambda reference, value: value == reference", "        return lambda reference, value: abs(value - reference) <= 1", 'G6')
 M('C15', 'conn8-inverted', 'experimental/polygonize.py', "    connectivity_8 = (connectivity == 8)", "    connectivity_8 = (connectivity == 4)", 'G7')
 M('C15', 'shape-swapped', 'experimental/polygonize.py', "    ny, nx = values.shape\n    if nx == 1:", "    nx, ny = values.shape\n    if nx == 1:", 'G7')
+M('C12', 'bins-cast-to-data-dtype', 'classify.py', "    bins = np.asarray(bins)\n    new_values = np.asarray(new_values)\n    out = _cpu_bin(", "    bins = np.asarray(bins, dtype=data.dtype)\n    new_values = np.asarray(new_values)\n    out = _cpu_bin(", 'K3')
+T('C12', 'bins-cast-float64', 'classify.py', "    bins = np.asarray(bins)\n    new_values = np.asarray(new_values)\n    out = _cpu_bin(", "    bins = np.asarray(bins, dtype=np.float64)\n    new_values = np.asarray(new_values)\n    out = _cpu_bin(")
+M('C12', 'natural-breaks-sorts-input', 'classify.py', "        sample_data = data.flatten()\n\n    # warning", "        sample_data = data.ravel()\n\n    # warning", 'K6',
+  edits=[('xrspatial/classify.py', "        sample_data = data.flatten()\n\n    # warning", "        sample_data = data.ravel()\n\n    # warning"),
+         ('xrspatial/classify.py', "    sample_data = sample_data[np.isfinite(sample_data)]\n    uv = np.unique(sample_data)", "    if not np.isfinite(sample_data).all():\n        sample_data = sample_data[np.isfinite(sample_data)]\n    uv = np.unique(sample_data)")])
